@@ -153,4 +153,23 @@ theorem invert_durations_nonneg (P : PrepOps ℝ ℝ) (pts : List (ℝ × ℝ)) 
     ∀ o ∈ r, ∀ d, o.dur = some d → 0 ≤ d :=
   applyInvert_durations P pts total cols l r h
 
+/-- **Random (`RandomMania { seed }`): the shuffle is a permutation of the columns**, for every
+seed (0, negative, `i32::MIN` / `MAX` included) and key count: `shuffled_columns` is a permutation
+of `0..n`, so the checked index `shuffled_columns[old_column]` succeeds for every column below `n`
+and yields a column below `n` — `column < keys` is preserved.  (The PRNG's own array accesses are
+index-safe by the invariant of `Lemmas/Rng.lean: Csharp.draws_ok`.) -/
+theorem random_shuffle_is_permutation (seed : Int) (n : Nat) :
+    (shuffledColumns seed n).Perm (List.range n) ∧
+    ∀ c, c < n → ∃ c', (shuffledColumns seed n)[c]? = some c' ∧ c' < n :=
+  ⟨shuffledColumns_perm seed n, fun c hc => shuffledColumns_get seed n c hc⟩
+
+/-- `apply_random_to_beatmap` never panics when the objects' columns are below `n` -/
+theorem random_never_panics [FOps R] [FOps S] (P : PrepOps R S) (X : XOps R S) (seed : Int) (total : S)
+    (n : Nat) (l : List (HitObj R S)) (hcol : ∀ h ∈ l, column P h.x total < n) :
+    ∃ r, applyRandom P X seed total n l = some r :=
+  applyRandom_total P X seed total n l hcol
+
+/-- a concrete shuffle: seed 0, 4 keys -/
+example : (shuffledColumns 0 4).length = 4 := by decide +kernel
+
 end Rosu.C02h
